@@ -973,6 +973,18 @@ def _handle_upload_pack_head(
     if protocol_version != 2:
         proto.write_pkt_line(None)
 
+    deepen_requested = bool(
+        depth not in (0, None) or shallow_since is not None or shallow_exclude
+    )
+    early_shallow: tuple[set[ObjectID], set[ObjectID]] | None = None
+    if deepen_requested and protocol_version != 2 and can_read is not None:
+        # In protocol v0/v1 the server answers a deepen request with the
+        # shallow-update section right away, before have negotiation starts.
+        # It has to be consumed here: otherwise the can_read() poll below
+        # picks up "shallow <sha>" lines (and the flush-pkt that ends the
+        # section) and mistakes them for ACKs, losing the new boundary.
+        early_shallow = _read_shallow_updates(proto.read_pkt_seq())
+
     have = next(graph_walker)
     in_vain = 0
     got_ack = False
@@ -1005,8 +1017,12 @@ def _handle_upload_pack_head(
     if protocol_version == 2:
         proto.write_pkt_line(None)
 
-    if depth not in (0, None) or shallow_since is not None or shallow_exclude:
-        if can_read is not None:
+    # A protocol v2 server also sends a shallow-info section when the client
+    # merely announced its own shallow commits (upload-pack.c, send_shallow_info).
+    if deepen_requested or (protocol_version == 2 and walker_shallow):
+        if early_shallow is not None:
+            (new_shallow, new_unshallow) = early_shallow
+        elif can_read is not None:
             (new_shallow, new_unshallow) = _read_shallow_updates(proto.read_pkt_seq())
         else:
             new_shallow = None
